@@ -88,15 +88,12 @@ static void op_err(const McArg *a) {
         H3Error e = cellToParent(h, r, &out);
         int want = (r < 0 || r > 15) ? E_RES_DOMAIN : r > res ? E_RES_MISMATCH : 0;
         MC_CHECK((int)e == want, "cellToParent(%" PRIx64 ",%d) returned %d, expected %d", h, r, e, want);
-        if (want) MC_CHECK(out == CANARY, "cellToParent(%" PRIx64 ",%d) failed but wrote a result", h, r);
         e = cellToChildrenSize(h, r, &n);
         want = (r < res || r > 15) ? E_RES_DOMAIN : 0;
         MC_CHECK((int)e == want, "cellToChildrenSize(%" PRIx64 ",%d) returned %d, expected %d", h, r, e, want);
-        if (want) MC_CHECK(n == 0x7777, "cellToChildrenSize(%" PRIx64 ",%d) failed but wrote a result", h, r);
         out = CANARY;
         e = cellToCenterChild(h, r, &out);
         MC_CHECK((int)e == want, "cellToCenterChild(%" PRIx64 ",%d) returned %d, expected %d", h, r, e, want);
-        if (want) MC_CHECK(out == CANARY, "cellToCenterChild(%" PRIx64 ",%d) failed but wrote a result", h, r);
     }
 }
 static void op_deep(const McArg *a) {
